@@ -213,6 +213,12 @@ def walk(t):
 # ---------------------------------------------------------------------------------------------------------------------
 # generators
 
+def pname(prefix, value):
+    """parameter name determined by (kind, value): two uses of one name always carry the same value"""
+    f = F(value)
+    return '%s%s%d_%d' % (prefix, 'm' if f < 0 else '', abs(f.numerator), f.denominator)
+
+
 def rnd_dyadic(rng, lo=-16, hi=16, den=8):
     return F(rng.randint(lo, hi), den)
 
@@ -239,12 +245,12 @@ def gen_volt(rng, idxs, opts):
         if m < 0.3:
             v['as_str'] = True
         elif m < 0.5:
-            v['param'] = 'pv%d' % rng.randint(0, 99)
+            v['param'] = pname('pi', v['v'])
         return v
     if not idxs or r < 0.35:
         v = {'k': 'plain', 'v': fs(rng.choice([F(3, 2), F(-1, 2), F(5, 2)]) if rng.random() < 0.5 else rnd_dyadic(rng))}
         if rng.random() < 0.1:
-            v['param'] = 'pv%d' % rng.randint(0, 99)
+            v['param'] = pname('pv', v['v'])
         return v
     coefs = {}
     names = list(idxs)
@@ -260,11 +266,11 @@ def gen_volt(rng, idxs, opts):
         name = rng.choice(list(coefs))
         c = F(coefs[name])
         if c != 0 and (1 / c).denominator in (1, 2, 4, 8) and not v.get('cparam', {}).get(name):
-            v['dparam'] = {name: 'pd%d' % rng.randint(0, 99)}
+            v['dparam'] = {name: pname('pd', 1 / c)}
     if rng.random() < opts.get('p_zero_coef', 0.03):
         name = rng.choice(list(coefs))
         coefs[name] = '0'
-        v['cparam'] = {name: 'pc%d' % rng.randint(0, 99)}
+        v['cparam'] = {name: 'pc%d' % rng.randint(0, 9)}
         v.pop('dparam', None)
     return v
 
